@@ -42,6 +42,14 @@ def explore(ctx, tier, rng, search=False):
         l = rng.choice([rng.uniform(0, 30), rng.choice(ls), float(rng.randint(0, 12))])
         i = rng.choice([rng.uniform(0, 12), rng.choice(is_), float(rng.randint(0, 6))])
         cases.append(('capri', f, l, i))
+    # the same measures in other carriers: binary32 NumPy scalars (values read from float32 arrays / HDF5; the case holds the
+    # exact binary32 value) and whole numbers as Python int / NumPy integers
+    import numpy as _np
+    for _ in range(nrand // 4):
+        f = rng.choice([rng.random(), rng.choice(fs)]); l = rng.choice([rng.uniform(0, 30), rng.choice(ls)]); i = rng.choice([rng.uniform(0, 12), rng.choice(is_)])
+        cases.append(('capri', float(_np.float32(f)), float(_np.float32(l)), float(_np.float32(i)), 'npfloat32'))
+    for _ in range(nrand // 6):
+        cases.append(('capri', rng.choice([0, 1, 1]), rng.randint(0, 12), rng.randint(0, 6), rng.choice(['pyint', 'npint64', 'npint32'])))
     # DockQ
     grid = [0.0, 0.1, 0.25, 0.5, 0.9, 1.0]
     rg = [0.0, 0.3, 1.0, 1.5, 4.0, 8.5, 20.0, 100.0]
@@ -55,15 +63,17 @@ def explore(ctx, tier, rng, search=False):
             d1, d2 = rng.choice([1.0, 4.0, 8.5, 12.5, rng.uniform(0.5, 20)]), rng.choice([0.5, 1.5, 3.0, rng.uniform(0.2, 8)])
         cases.append(('dockq', f, l, i, d1, d2))
     cases.append(('dockq', 1.0, 0.0, 0.0, 8.5, 1.5))
+    for _ in range(nrand // 10):
+        cases.append(('dockq', rng.choice([0, 1, 1]), rng.randint(0, 15), rng.randint(0, 8), 8.5, 1.5, rng.choice(['pyint', 'npint64', 'npint32'])))
     cases.append(('defaults',))
 
     reqs = []
     for c in cases:
         if c[0] == 'capri':
-            reqs += [['capri'] + [Fraction(x) for x in c[1:]], ['spec.capri'] + [Fraction(x) for x in c[1:]]]
+            reqs += [['capri'] + [Fraction(x) for x in c[1:4]], ['spec.capri'] + [Fraction(x) for x in c[1:4]]]
         elif c[0] == 'dockq':
-            reqs += [['dockq'] + [Fraction(x) for x in c[1:]], ['spec.dockq'] + [Fraction(x) for x in c[1:]],
-                     ['dockq_raw'] + [Fraction(x) for x in c[1:]]]
+            reqs += [['dockq'] + [Fraction(x) for x in c[1:6]], ['spec.dockq'] + [Fraction(x) for x in c[1:6]],
+                     ['dockq_raw'] + [Fraction(x) for x in c[1:6]]]
         else:
             reqs += [['dockq_defaults']]
     outs = ctx.model.batch(reqs)
@@ -75,14 +85,22 @@ def explore(ctx, tier, rng, search=False):
     def pyfloat(f, l, i): return (f, l, i)
     def npfloat64(f, l, i): return (np.float64(f), np.float64(l), np.float64(i))
     def mixed(f, l, i): return (f, np.float64(l), np.float64(i))
+    def npfloat32(f, l, i): return (np.float32(f), np.float32(l), np.float32(i))
+    def pyint(f, l, i): return (int(f), int(l), int(i))
+    def npint64(f, l, i): return (np.int64(f), np.int64(l), np.int64(i))
+    def npint32(f, l, i): return (np.int32(f), np.int32(l), np.int32(i))
+    forced = {'npfloat32': npfloat32, 'pyint': pyint, 'npint64': npint64, 'npint32': npint32, 'npfloat64': npfloat64, 'mixed': mixed, 'pyfloat': pyfloat}
     carriers = [pyfloat, npfloat64, pyfloat, mixed]
     ci = 0
     for c in cases:
         if c[0] == 'capri':
-            _, f, l, i = c
+            _, f, l, i = c[:4]
             m, s = outs[k], outs[k + 1]; k += 2
             # the values arrive as Python floats or as NumPy scalars (what the library's own get_rmsd returns): same class
-            car = carriers[ci % len(carriers)]; ci += 1
+            if len(c) > 4:
+                car = forced[c[4]]
+            else:
+                car = carriers[ci % len(carriers)]; ci += 1
             try:
                 impl = ['OK', str(SS.compute_CapriClass(*car(f, l, i)))]
             except Exception as e:
@@ -101,9 +119,11 @@ def explore(ctx, tier, rng, search=False):
             elif impl != m:
                 rep.mismatch('impl_vs_model', case, impl=impl, model=m, spec=s)
         elif c[0] == 'dockq':
-            _, f, l, i, d1, d2 = c
+            _, f, l, i, d1, d2 = c[:6]
             m, s, raw = Q(outs[k]), Q(outs[k + 1]), Q(outs[k + 2]); k += 3
             case = {'fn': 'dockq', 'fnat': f, 'lrmsd': l, 'irmsd': i, 'd1': d1, 'd2': d2}
+            if len(c) > 6:
+                case['carrier'] = c[6]; f, l, i = forced[c[6]](f, l, i)
             # margin rule: the exact value is too close to a rounding tie at 6 decimals
             scaled = raw * 10**6
             dist = abs((scaled - math.floor(scaled)) - Fraction(1, 2))
@@ -120,7 +140,7 @@ def explore(ctx, tier, rng, search=False):
                     impl = Fraction(v)          # not rounded to six decimals at all
             except Exception as e:
                 impl = exc_class(e)
-            feats = []
+            feats = ['carrier-' + case['carrier']] if case.get('carrier') else []
             if (d1, d2) != (8.5, 1.5): feats.append('custom-scales')
             if l > 0 or i > 0: feats.append('nonzero-rmsd')
             if (f, l, i) == (1.0, 0.0, 0.0): feats.append('perfect')
@@ -160,6 +180,9 @@ def replay(ctx, case):
         f, l, i = case['fnat'], case['lrmsd'], case['irmsd']
         if case.get('carrier') == 'npfloat64': f, l, i = np.float64(f), np.float64(l), np.float64(i)
         if case.get('carrier') == 'mixed': l, i = np.float64(l), np.float64(i)
+        if case.get('carrier') == 'npfloat32': f, l, i = np.float32(f), np.float32(l), np.float32(i)
+        if case.get('carrier') in ('pyint', 'npint64', 'npint32'):
+            ty = {'pyint': int, 'npint64': np.int64, 'npint32': np.int32}[case['carrier']]; f, l, i = ty(f), ty(l), ty(i)
         try:
             impl = ['OK', str(SS.compute_CapriClass(f, l, i))]
         except Exception as e:
@@ -168,6 +191,10 @@ def replay(ctx, case):
     if case['fn'] == 'dockq':
         args = [Fraction(case[k]) for k in ('fnat', 'lrmsd', 'irmsd', 'd1', 'd2')]
         s = Q(ctx.model.batch([['spec.dockq'] + args])[0])
-        v = SS.compute_DockQScore(case['fnat'], case['lrmsd'], case['irmsd'], d1=case['d1'], d2=case['d2'])
+        import numpy as np
+        f, l, i = case['fnat'], case['lrmsd'], case['irmsd']
+        if case.get('carrier') in ('pyint', 'npint64', 'npint32'):
+            ty = {'pyint': int, 'npint64': np.int64, 'npint32': np.int32}[case['carrier']]; f, l, i = ty(f), ty(l), ty(i)
+        v = SS.compute_DockQScore(f, l, i, d1=case['d1'], d2=case['d2'])
         return Fraction(int(round(v * 10**6)), 10**6) == s and abs(v - float(s)) < 1e-12, f'implementation {v} specification {float(s)}'
     return True, 'n/a'
